@@ -91,3 +91,21 @@ pub mod task {
     pub struct LocalSet;
     impl LocalSet { pub fn new() -> Self { LocalSet } pub async fn run_until<F: Future>(&self, f: F) -> F::Output { f.await } }
 }
+
+/// Model of the `tokio::io` traits used by actix-codec / actix-tls (verbatim signatures, no behaviour of their own).
+pub mod io {
+    use std::{io, pin::Pin, task::{Context, Poll}};
+    pub struct ReadBuf<'a> { buf: &'a mut [u8], filled: usize }
+    impl<'a> ReadBuf<'a> {
+        pub fn new(buf: &'a mut [u8]) -> Self { ReadBuf { buf, filled: 0 } }
+        pub fn filled(&self) -> &[u8] { &self.buf[..self.filled] }
+        pub fn remaining(&self) -> usize { self.buf.len() - self.filled }
+        pub fn put_slice(&mut self, s: &[u8]) { assert!(s.len() <= self.remaining()); let mut i = 0; while i < s.len() { self.buf[self.filled + i] = s[i]; i += 1; } self.filled += s.len(); }
+    }
+    pub trait AsyncRead { fn poll_read(self: Pin<&mut Self>, cx: &mut Context<'_>, buf: &mut ReadBuf<'_>) -> Poll<io::Result<()>>; }
+    pub trait AsyncWrite {
+        fn poll_write(self: Pin<&mut Self>, cx: &mut Context<'_>, buf: &[u8]) -> Poll<io::Result<usize>>;
+        fn poll_flush(self: Pin<&mut Self>, cx: &mut Context<'_>) -> Poll<io::Result<()>>;
+        fn poll_shutdown(self: Pin<&mut Self>, cx: &mut Context<'_>) -> Poll<io::Result<()>>;
+    }
+}
